@@ -4,7 +4,7 @@ from .. import gen as G
 from .common import TRUSTED, ASSUMPTIONS, default_nontrivial, LEVEL_NOTE, TECHNIQUE
 
 LEVEL = "proof"
-THEOREMS = []
+THEOREMS = ['C13_roundtrip', 'C13_projection', 'C13_cfuse_eq_acm', 'C13_afuse_eq_avg', 'C13_wfuse_eq_wgh', 'C13_cfuse_err_iff', 'C13_two_dogmatic_mean', 'C13_vacuous_band_within']
 RULE = ("bconv (round trip) and bvs (cfuse/afuse/wfuse vs FuseOp on converted operands, both computed by the implementation) on pairs "
         "of well-formed binomial opinions: 1/8 grid incl. vacuous/dogmatic/zero-one base rates (exhaustive in thorough), random dyadic "
         "up to 1/64, nearly vacuous (1-u in 1e-3..1e-15) and nearly dogmatic (u in 1e-3..1e-12) operands; u in (0,eps] excluded; "
